@@ -658,6 +658,7 @@ func (m *machine) runPath(it pendingItem) {
 	m.newPend = nil
 	m.reached, m.observed, m.observeT, m.observeS = nil, nil, nil, nil
 	m.openFiles = nil
+	m.zipHandles = nil
 	m.zipContents = nil
 	m.fileContents, m.fileState = nil, nil
 	m.dom, m.entangled, m.allEntangled = map[string]*dom8{}, map[string]bool{}, false
